@@ -1,4 +1,5 @@
 """Thin wrapper around TLC: exhaustive checks, scenario generation (PrintT lines), trace monitors (verdict lines)."""
+from .common import rmtree as _rmtree
 import json, os, re, shutil, subprocess, tempfile, time
 from .common import SPEC, ToolError, log, scratch
 
@@ -79,10 +80,10 @@ def run(module, cfg=None, workers=8, simulate=None, depth=None, env=None, timeou
         p = subprocess.run(cmd, cwd=SPEC, env=e, stdout=subprocess.PIPE, stderr=subprocess.STDOUT,
                            text=True, errors="replace", timeout=timeout)
     except subprocess.TimeoutExpired as ex:
-        shutil.rmtree(meta, ignore_errors=True)
+        _rmtree(meta)
         raise ToolError("TLC timed out after %ss: %s" % (timeout, r.cmd))
     r.wall = time.time() - t0
-    shutil.rmtree(meta, ignore_errors=True)
+    _rmtree(meta)
     out = p.stdout
     r.out = out
     for line in out.splitlines():
